@@ -59,6 +59,8 @@ pub enum Tamper {
     IndexOutOfRange,
     NoCellbase,
     PrefilledAlsoShortId,
+    /// the last prefilled entry appears twice (same index)
+    RepeatPrefilled,
 }
 
 #[derive(Clone, Copy, Debug, PartialEq, Eq, Serialize, Deserialize)]
@@ -188,6 +190,7 @@ pub fn scenario() -> impl Strategy<Value = Scenario> {
                     1 => Just(Tamper::IndexOutOfRange),
                     1 => Just(Tamper::NoCellbase),
                     1 => Just(Tamper::PrefilledAlsoShortId),
+                    1 => Just(Tamper::RepeatPrefilled),
                 ],
                 proptest::collection::vec(
                     prop_oneof![3 => Just(Src::None), 4 => Just(Src::Exact), 2 => Just(Src::Twin)],
@@ -423,6 +426,13 @@ fn build(sc: &Scenario) -> Built {
             let l = p.len();
             let total = cb.txs_len();
             p[l - 1] = p[l - 1].clone().as_builder().index(total + (sc.salt % 3) as usize).build();
+            rebuild(cb.as_builder().prefilled_transactions(p))
+        }
+        Tamper::RepeatPrefilled => {
+            let mut p: Vec<_> = cb.prefilled_transactions().into_iter().collect();
+            if let Some(last) = p.last().cloned() {
+                p.push(last);
+            }
             rebuild(cb.as_builder().prefilled_transactions(p))
         }
         Tamper::NoCellbase => {
